@@ -34,7 +34,7 @@ from engine import flobuild as fb
 
 PROPERTY = "C13"
 ENGINE = "E1"
-FUNCTIONS = ["ioflo.base.acting.Act.resolvePath", "ioflo.base.acting.Act.resolve",
+FUNCTIONS = ["ioflo.aid.aiding.nameToPath (direct obligation)", "ioflo.base.acting.Act.resolvePath", "ioflo.base.acting.Act.resolve",
              "ioflo.base.building.Builder.parseIndirect", "Builder.parseRelation", "ioflo.aid.aiding.nameToPath",
              "ioflo.base.framing.Framer.resolveMoots", "Framer.clone", "ioflo.base.poking.PokeDirect._resolve",
              "ioflo.base.needing.NeedDirect._resolve", "ioflo.base.housing.House.resolve"]
@@ -46,7 +46,10 @@ ASSUMPTIONS = [
     "a nested frame, and a cloned moot framer's frame; inode alphabets and new-name alphabets as listed in bounds",
     "base entity names are unique across kinds and never occur in path literals, so 'the corresponding segments' are "
     "exactly the segments (or `_`-separated parts of a clone framer name) equal to the old name; a doer named N "
-    "appears in paths as N.lower() (single-part names)",
+    "appears in paths as N.lower(); a doer named by several words (`as w1 w2 ..`, the `words/*` obligations, words from "
+    "a fixed alphabet incl. one-letter words, chosen symbolically) appears as one lower-case segment per word, which is "
+    "what the documented nameToPath rule (every upper case letter starts a node) gives; `nametopath` checks that "
+    "function directly on the same word sequences",
     "new names that are FloScript words (me, main, root, framer, frame, actor, value) are only used for entities that the "
     "program never writes in a position where the grammar also accepts that word as a keyword (`of framer <name>`, "
     "`of frame <name>`): there the word would be the keyword, not a reference to the entity; `mine` is not used as a "
@@ -189,8 +192,12 @@ def generate(names, inodes, drop=()):
 
 
 def seg_name(kind, name):
-    """how an entity name shows up inside a path segment"""
-    return name.lower() if kind == "actor" else name
+    """how an entity name shows up inside a path: a doer named by the words w1 w2 .. (`as w1 w2 ..`) is the camel
+    case name W1W2.. and, by the documented nameToPath rule (every upper case letter starts a new node), the
+    path segments w1.w2... in lower case -- one segment per word, also for one-letter words"""
+    if kind == "actor":
+        return ".".join(w.lower() for w in name.split())
+    return name
 
 
 def rename_path(path, old, new):
@@ -278,14 +285,60 @@ def check_pair(sym, ent, new, inodes, inodes_key, special):
         if loc0 != loc1 or k0 != k1 or p1 != exp:
             return ("C13/%s/%s/renamed-path-differs" % (cls, kind),
                     "%s: at %r base %r -> expected %r, got %r" % (tag, loc0, p0, exp, p1))
-    want_store = sorted(rename_path(p, old_seg, new_seg) for p in obs0[2])
-    if sorted(obs1[2]) != want_store:
+    def closed(paths):
+        """with the node entries ('a.b.') of every prefix: a multi-word name adds intermediate nodes"""
+        out = set()
+        for p in paths:
+            out.add(p)
+            segs = p.rstrip(".").split(".")
+            for i in range(1, len(segs)):
+                out.add(".".join(segs[:i]) + ".")
+        return sorted(out)
+    want_store = closed(rename_path(p, old_seg, new_seg) for p in obs0[2])
+    if closed(obs1[2]) != want_store:
         extra = sorted(set(obs1[2]) ^ set(want_store))[:4]
         return ("C13/%s/%s/store-paths-differ" % (cls, kind), "%s: %r" % (tag, extra))
     return None
 
 
 SITE_PAIRS = [(a, b) for i, a in enumerate(SITES) for b in SITES[i + 1:]]
+
+# words a doer name is composed of (`do <kind> as <word> [<word> ..]`): one-letter words, words with digits / underscore
+WORDS = ["a", "b", "side", "x9", "cnt", "d_e"]
+WORD_CFGS = [dict.fromkeys(SITES, ""), dict(F="ino", T="me.ino", S="", C="me.ino", M="ino")]
+
+
+def pick_words(sym, maxwords):
+    n = 1 + sym.choice("nwords", maxwords)
+    return [fb.pick(sym, "w%d" % i, len(WORDS)) for i in range(n)]
+
+
+def h_words(sym, ent, maxwords):
+    """the doer `ent` is renamed to a symbolic sequence of 1..maxwords words"""
+    ci = sym.choice("cfg", len(WORD_CFGS))
+    wi = pick_words(sym, maxwords)
+    with fb.notrace(sym):
+        name = " ".join(WORDS[i] for i in wi)
+        res = check_pair(sym, ent, name, WORD_CFGS[ci], ("w", ci), False)
+    if res is not None:
+        sym.fail(res[0].replace("/fresh-name/", "/multi-word-name/"), res[1])
+    sym.cover("renamed-consistently")
+    return True
+
+
+def h_nametopath(sym, maxwords):
+    """ioflo.aid.aiding.nameToPath on the camel case name of a symbolic word sequence: one lower case node per
+    word ('uppercase letters denote intermediate nodes in path. Node path ends in dot')"""
+    from ioflo.aid.aiding import nameToPath
+    wi = pick_words(sym, maxwords)
+    with fb.notrace(sym):
+        words = [WORDS[i] for i in wi]
+        camel = "".join(w.capitalize() for w in words)        # what Builder.buildDo makes of `as w1 w2 ..`
+        got = nameToPath(camel)
+        want = "." + ".".join(w.lower() for w in words) + "."
+    sym.check(got == want, "C13/nameToPath/words-not-one-node-each", "nameToPath(%r) = %r, expected %r" % (camel, got, want))
+    sym.cover("renamed-consistently")
+    return True
 
 
 def h(sym, ent, tier, special, pairs=False):
@@ -335,6 +388,14 @@ def obligations(tier):
                       budget=600 if quick else 2400, per_path=60, covers=["renamed-consistently"],
                       bounds=dict(entity=ent, kind=KIND[ent], new_names=PLAIN, inode_sites="any 2 of " + repr(SITES),
                                   inode_alphabet=INODES_Q if quick else INODES_P)))
+    mw = 3 if quick else 4
+    for ent in ("dact", "mact"):
+        out.append(Ob("words/" + ent, h_words, dict(ent=ent, maxwords=mw), budget=600 if quick else 2400, per_path=60,
+                      covers=["renamed-consistently"],
+                      bounds=dict(entity=ent, kind="actor", new_name="1..%d words from %r" % (mw, WORDS),
+                                  inode_configurations=len(WORD_CFGS))))
+    out.append(Ob("nametopath", h_nametopath, dict(maxwords=mw + 1), budget=300, per_path=60,
+                  covers=["renamed-consistently"], bounds=dict(words=WORDS, name="camel case of 1..%d words" % (mw + 1))))
     for ent in ENTITIES:
         out.append(Ob("special/" + ent, h, dict(ent=ent, tier=tier, special=True),
                       budget=300 if quick else 600, per_path=60, covers=["renamed-consistently"],
